@@ -51,6 +51,10 @@ type c13Case struct {
 	Variants  []revVariant  `json:"variants,omitempty"`
 	Importers []revImporter `json:"importers,omitempty"`
 	Orders    [][]int       `json:"orders,omitempty"` // load orders over variants (importers are loaded last, in the given rotation)
+	// MidProcess > 0: importers are loaded first and a Process is issued after the
+	// first MidProcess variants of every order (incremental history): the final
+	// binding must still be the prescribed one.
+	MidProcess int `json:"mid_process,omitempty"`
 
 	// files
 	Files   []fileSpec   `json:"files,omitempty"`
@@ -201,6 +205,9 @@ func genRevisions(t *tape.Tape) *c13Case {
 		c.Importers = append(c.Importers, inc)
 	}
 	n := len(c.Variants)
+	if t.Chance(1, 3) && n >= 2 {
+		c.MidProcess = t.Range(1, n-1)
+	}
 	if n <= 5 {
 		perm := make([]int, n)
 		for i := range perm {
@@ -310,16 +317,38 @@ func runRevisions(c *c13Case, o *core.Outcome) {
 	var firstObs string
 	for oi, order := range c.Orders {
 		spec := &world.Spec{Texts: texts, Sched: maporder.Canonical()}
+		if c.MidProcess > 0 {
+			for k := range c.Importers {
+				spec.Ops = append(spec.Ops, world.Op{Op: "parse", Name: c.Importers[(k+oi)%len(c.Importers)].Name})
+			}
+		}
+		nv := 0
 		for _, vi := range order {
 			if vi < len(c.Variants) {
 				spec.Ops = append(spec.Ops, world.Op{Op: "parse", Name: c.Variants[vi].ID})
+				nv++
+				if nv == c.MidProcess {
+					spec.Ops = append(spec.Ops, world.Op{Op: "process"})
+				}
 			}
 		}
-		for k := range c.Importers {
-			spec.Ops = append(spec.Ops, world.Op{Op: "parse", Name: c.Importers[(k+oi)%len(c.Importers)].Name})
+		if c.MidProcess <= 0 {
+			for k := range c.Importers {
+				spec.Ops = append(spec.Ops, world.Op{Op: "parse", Name: c.Importers[(k+oi)%len(c.Importers)].Name})
+			}
 		}
 		spec.Ops = append(spec.Ops, world.Op{Op: "process"})
 		res := world.Exec(spec)
+		// results of the variant loads, in load order
+		var loadRes []world.OpResult
+		for _, r := range res.Ops {
+			if r.Op.Op == "parse" && strings.HasPrefix(r.Op.Name, "v") {
+				loadRes = append(loadRes, r)
+			}
+		}
+		if c.MidProcess > 0 {
+			o.Count("probe.revisions_incremental_history", 1)
+		}
 		o.Ticks += res.Ticks
 		if p := res.FirstPanic(); p != nil {
 			o.Count("other_oracle.c01_would_fire", 1)
@@ -336,7 +365,7 @@ func runRevisions(c *c13Case, o *core.Outcome) {
 				continue
 			}
 			v := c.Variants[vi]
-			r := res.Ops[k]
+			r := loadRes[k]
 			k++
 			kk := key{v.Name, latest(v.Revs)}
 			_, dup := accepted[kk]
@@ -637,6 +666,10 @@ func (ch *chooser) treeCandidates(dir, mod string, out *[]string) {
 }
 
 func runFiles(c *c13Case, o *core.Outcome) {
+	if !fsim.SeamComplete() {
+		o.Discard = "fs-seam-incomplete"
+		return
+	}
 	disk := map[string]string{}
 	owner := map[string]string{}
 	ncand := 0
@@ -979,7 +1012,24 @@ func runSplit(c *c13Case, o *core.Outcome) {
 	}
 	execs := append([]c05Run{{Order: names, Sched: maporder.Canonical()}}, c.Runs...)
 	for i, r := range execs {
-		b := runBatch(tb, fixOrder(r.Order, names), r.Sched, world.Options{})
+		var b *batchOutcome
+		if i%2 == 1 {
+			// re-Process: the submodule merge is driven by per-run memo tables
+			spec := &world.Spec{Texts: tb, Sched: r.Sched}
+			for _, n := range fixOrder(r.Order, names) {
+				spec.Ops = append(spec.Ops, world.Op{Op: "parse", Name: n})
+			}
+			spec.Ops = append(spec.Ops, world.Op{Op: "process"}, world.Op{Op: "process"})
+			res := world.Exec(spec)
+			b = outcomeOf(&world.Result{Ops: res.Ops[len(res.Ops)-1:], MS: res.MS, Rec: res.Rec, Ticks: res.Ticks})
+			b.Res = res
+			if p := res.FirstPanic(); p != nil {
+				b.Crashed, b.Frame = true, p.Frame
+			}
+			o.Count("probe.split_reprocessed", 1)
+		} else {
+			b = runBatch(tb, fixOrder(r.Order, names), r.Sched, world.Options{})
+		}
 		o.Ticks += b.Res.Ticks
 		if i > 0 {
 			addRecorder(o, b.Res.Rec)
